@@ -212,7 +212,7 @@ def run_check(pid, tier, seed, inline=False, only=None):
     if only is not None:
         plan = [plan[i] for i in only]
     timeout = getattr(mod, "SHARD_TIMEOUT", {}).get(
-        tier, 600 if tier == "quick" else 3600)
+        tier, 300 if tier == "quick" else 3600)
     res = Result()
     if inline:
         for params in plan:
